@@ -134,7 +134,7 @@ def caller_scenario(base, nimg, par, chooser, rng):
         def job():
             with warnings.catch_warnings():
                 warnings.simplefilter("ignore")
-                proc_p._tile_parallel(pio_p, False, par)
+                proc_p.tile(pio_p, parallel=par, cli_progress=False)          # the public entry point (resolves the parallelism, cleans the lock files)
         sim = simmp.simulate(job, chooser, max_steps=6000, hang_window=300)
     bad = None
     if sim.outcome != "ok":
@@ -261,10 +261,10 @@ def main():
         # a caller of the interface under contention: the real parallel multi-TAN tiler, several images landing in ONE
         # tile, its workers interleaved at every lock / read / write / queue step; the final tile must be the serial one
         try:
-            n_call = 40 if h.deep else 14
+            n_call = 80 if h.deep else 36
             for ci in range(n_call):
-                nimg = rng.choice([2, 3])
-                par = rng.choice([2, 3])
+                nimg = rng.choice([2, 3, 4])
+                par = rng.choice([2, 3, 3])
                 if ci % 2 == 0:
                     chooser, cname = simmp.PCTChooser(rng.randrange(2 ** 31), depth=rng.choice([2, 3, 4])), "pct"
                 else:
